@@ -1,7 +1,50 @@
 import PprofVerif.Base.Tok
-/- Driver operations for C16. -/
-namespace Driver.C16
-open PV
+import PprofVerif.Model.Fetch
+import PprofVerif.Gen.FetchConsts
+/- Driver operations for C16 (multi-source fetch).
 
-def ops : List (String × (List String → String)) := []
+   fetch.chunk
+       → the chunk size extracted from the current source (Gen/FetchConsts.lean)
+   fetch.model <c> <n> <n bits: 1 = source i succeeds> <π: list> <m> <m bits> <σ: list>
+       runs Fetch.grabSourcesAndBases on the free-monoid instance (profile of source i = [i],
+       of base j = [1000000 + j], merge = concatenation in merge order) with chunk size c
+       (0 ⇒ the extracted one) under the completion orders π (sources) and σ (bases)
+       → `<ok|err|panic> src <list> base <list> errs <list of failed source idx> berrs <list>`
+         (the src/base lists are the merged "profiles": the indices collected, in merge order;
+          on err/panic they are empty)
+-/
+namespace Driver.C16
+open PV PV.Fetch
+
+def bits (n : Nat) : Rd (List Bool) := Rd.rep Rd.bool n
+
+def req : Rd (Nat × List Bool × List Nat × List Bool × List Nat) := do
+  let c ← Rd.nat
+  let n ← Rd.nat
+  let sb ← bits n
+  let π ← Rd.list Rd.nat
+  let m ← Rd.nat
+  let bb ← bits m
+  let σ ← Rd.list Rd.nat
+  pure (c, sb, π, bb, σ)
+
+def baseTag : Nat := 1000000
+
+def ops : List (String × (List String → String)) := [
+  ("fetch.chunk", fun _ => toString Gen.FetchConsts.chunkSize),
+  ("fetch.model", fun ts =>
+    match Rd.run req ts with
+    | none => "bad-op"
+    | some (c, sb, π, bb, σ) =>
+      let c := if c = 0 then Gen.FetchConsts.chunkSize else c
+      let r := grabSourcesAndBases catMerge c (outsOfBits 0 sb) sb.length π (outsOfBits baseTag bb) bb.length σ
+      let tail := Wr.render (["errs"] ++ Wr.list Wr.nat (r.srcPrinted.map (·.1)) ++
+                             ["berrs"] ++ Wr.list Wr.nat (r.basePrinted.map (·.1)))
+      match r.res with
+      | .ok b =>
+        Wr.render (["ok", "src"] ++ Wr.list Wr.nat (b.src.getD []) ++
+                   ["base"] ++ Wr.list Wr.nat ((b.base.getD []).map (· - baseTag))) ++ " " ++ tail
+      | .err _ => "err src 0 base 0 " ++ tail
+      | .panic _ => "panic src 0 base 0 " ++ tail)
+]
 end Driver.C16
